@@ -1,3 +1,92 @@
-import NxModel.Bytes
-/-! driver stub for C01 (replaced when the property's model lands) -/
-def main : IO Unit := IO.println "stub C01"
+import NxModel.Prudp.Channel
+import NxModel.Crypto.Md5
+import NxModel.DriverUtil
+/-! driver for the L2 channel model (one instance per direction and substream)
+
+  new <ch> <start> <size> none                 create a channel without cipher (lite / stream transports)
+  new <ch> <start> <size> rc4 <keyhex> <n>     RC4 with the given key; key stream precomputed for n bytes
+  send <ch> <hex> | ping <ch> | disc <ch>      sender ops; answer: the wires appended `id:kind:frag:cipherhex` space separated
+  arrive <ch> <j>                              receiver op; answer: `ok=<opOk> nrel=<n> out=<count>`
+  state <ch>                                   `next=<id> buf=<ids> frag=<hex> closed=<0|1> decpos=<n> nrel=<n> sent=<count> out=<hex,..>`
+-/
+open Nx Nx.Chan
+
+structure Inst where
+  name : String
+  ch : Chan
+  size : Nat
+  ks : Array UInt8      -- empty = no cipher
+
+def ksCipher (ks : Array UInt8) : Cipher :=
+  if ks.size = 0 then ⟨fun _ x => x, fun _ x => x⟩
+  else
+    let f : Nat → Bytes → Bytes := fun p x => (List.range x.length).zipWith (fun i b => b ^^^ ks[p + i]!) x
+    ⟨f, f⟩
+
+def keystream (key : Bytes) (n : Nat) : Array UInt8 :=
+  let rec go (fuel : Nat) (st : Nx.Crypto.Rc4) (acc : Array UInt8) : Array UInt8 :=
+    match fuel with
+    | 0 => acc
+    | fuel + 1 => let (k, st') := Nx.Crypto.rc4Next st; go fuel st' (acc.push k)
+  go n (Nx.Crypto.rc4Ksa key) (Array.mkEmpty n)
+
+def showWire (w : Wire) : String :=
+  let (k, f) := match w.kind with
+    | .data fid => ("data", fid)
+    | .ping => ("ping", 0)
+    | .disconnect => ("disc", 0)
+  s!"{w.id}:{k}:{f}:{hexOut w.cipher}"
+
+def findInst (name : String) : List Inst → Option Inst
+  | [] => none
+  | i :: r => if i.name = name then some i else findInst name r
+
+def setInst (i : Inst) : List Inst → List Inst
+  | [] => [i]
+  | j :: r => if j.name = i.name then i :: r else j :: setInst i r
+
+def step (st : List Inst) (line : String) : List Inst × String :=
+  match words line with
+  | ["new", name, start, size, "none"] =>
+    match start.toNat?, size.toNat? with
+    | some start, some size => (setInst ⟨name, init start, size, #[]⟩ st, "ok")
+    | _, _ => (st, "bad-op")
+  | ["new", name, start, size, "rc4", key, n] =>
+    match start.toNat?, size.toNat?, fromHex key, n.toNat? with
+    | some start, some size, some key, some n => (setInst ⟨name, init start, size, keystream key n⟩ st, "ok")
+    | _, _, _, _ => (st, "bad-op")
+  | [op, name] =>
+    match findInst name st with
+    | none => (st, "bad-op")
+    | some i =>
+      let c := ksCipher i.ks
+      match op with
+      | "ping" =>
+        let ch' := Chan.step c i.size i.ch .ping
+        (setInst { i with ch := ch' } st, " ".intercalate ((ch'.s.log.drop i.ch.s.log.length).map showWire))
+      | "disc" =>
+        let ch' := Chan.step c i.size i.ch .disconnect
+        (setInst { i with ch := ch' } st, " ".intercalate ((ch'.s.log.drop i.ch.s.log.length).map showWire))
+      | "state" =>
+        let r := i.ch.r
+        let ids := (r.win.packets.map (·.1)).toArray.qsort (· < ·) |>.toList
+        (st, s!"next={r.win.next} buf={",".intercalate (ids.map toString)} frag={hexOut r.core.reasm.buf} closed={if r.core.closed then 1 else 0} decpos={r.core.decPos} nrel={r.nrel} sent={i.ch.s.sent.length} out={",".intercalate (r.core.reasm.out.map hexOut)}")
+      | _ => (st, "bad-op")
+  | ["send", name, msg] =>
+    match findInst name st, fromHex msg with
+    | some i, some m =>
+      let c := ksCipher i.ks
+      let ch' := Chan.step c i.size i.ch (.send m)
+      (setInst { i with ch := ch' } st, " ".intercalate ((ch'.s.log.drop i.ch.s.log.length).map showWire))
+    | _, _ => (st, "bad-op")
+  | ["arrive", name, j] =>
+    match findInst name st, j.toNat? with
+    | some i, some j =>
+      let c := ksCipher i.ks
+      let ok := opOk i.ch (.arrive j)
+      let ch' := Chan.step c i.size i.ch (.arrive j)
+      (setInst { i with ch := ch' } st, s!"ok={if ok then 1 else 0} nrel={ch'.r.nrel} out={ch'.r.core.reasm.out.length}")
+    | _, _ => (st, "bad-op")
+  | _ => (st, "bad-op")
+
+def main : IO Unit := runState ([] : List Inst) step
